@@ -91,6 +91,15 @@ func c07File(kind string, n int, seed int64) []string {
 			if h, ok := hot[len(lines)]; ok {
 				reps = h
 			}
+			// around the bulk loader's bucket cuts every key holds several values, so that whatever the exact
+			// sorted index of the cut is, it falls inside a run of equal keys
+			if n := len(lines); reps == 1 && ((n > 27000 && n < 33000) || (n > 57000 && n < 63000)) {
+				reps = 5 + rng.Intn(4)
+				for j := 0; j < reps; j++ {
+					lines = append(lines, fmt.Sprintf("+%s,192.0.%d.%d,%d", name, rng.Intn(256), rng.Intn(256), 1+rng.Intn(5000)))
+				}
+				continue
+			}
 			for j := 0; j < reps; j++ {
 				switch rng.Intn(5) {
 				case 0:
@@ -204,7 +213,7 @@ func c07Compile(text []byte, s c07Setting, path string, limit time.Duration) (er
 // c07Limit is the watchdog of one compilation: generous (the largest file compiles in a few
 // seconds), and only a structural witness turns its firing into a violation.
 func c07Limit(nlines int) time.Duration {
-	return time.Duration(20+nlines/500) * time.Second
+	return time.Duration(150+nlines/200) * time.Second
 }
 
 func c07Path(s c07Setting) string {
